@@ -9,8 +9,7 @@
      1404 go-deadlock reported a potential deadlock (runs with detection enabled)
      1405 a goroutine panicked or the run died with a fatal runtime error
      1406 the Go race detector reported a data race (thorough tier only)
-     1411 application books, 1412 queue books, 1413 node allocation not owned by a live application,
-     1414 application allocation not on its node, 1415 root vs nodes, 1416 leak after drain   (C03 predicates)
+     1411 application books, 1414 application allocation not on its node   (C03 predicates; calm workloads)
      1450 (known finding C14-alloc-leak-app-removed) a node lists an allocation whose own node id is still unset
           and that no live application lists; the final-state predicates are then judged without these allocations
      1451 (known finding C14-concurrent-ledger-drift) queue ledger / node allocation list / root-vs-nodes / drained
@@ -28,6 +27,7 @@ Record conc_case := mkConc {
   cc_singles : list role;      (* roles that are ONE goroutine in the service (scheduling loop, the three event handlers) *)
   cc_rank : list (lock * nat); (* rank certificate from the harness (levels of the condensation), used when cyclic *)
   cc_gocycle : list lock;      (* the offending cycle found by the harness, [] = none *)
+  cc_calm : bool;              (* input fact: calm workload (no application / node removal, reload, timers, cleaning, gang, updates) *)
   cc_observed : bool;          (* the final state could be observed (false: goroutines stayed blocked / run died) *)
   cc_final : ostate;
   cc_blocked : N;              (* driver goroutines still running at the watchdog deadline *)
@@ -84,18 +84,22 @@ Definition drift (s : ostate) : bool :=
   negb (root_matches_nodes s) || negb (drained_ok s).
 
 (* Final-state judgement.
-   strict in every run: 1402 node ledgers (with the unbound orphans taken off the books), 1411 application books,
-   1414 an application lists an allocation WITH a node id that the node does not list;
-   1450 known finding C14-alloc-leak-app-removed (signature: allocation with unset node id listed on one side only);
-   1451 known finding C14-concurrent-ledger-drift: on the unchanged tree application removal, allocation release /
-   update, node removal and configuration reload racing with the scheduling loop leave queue ledgers and node
-   allocation lists in disagreement with the live applications in a few percent of the runs. *)
-Definition final_state_check (s : ostate) : list N :=
+   1450 known finding C14-alloc-leak-app-removed (signature: allocation with unset node id listed on one side only).
+   1451 known finding C14-concurrent-ledger-drift: on the unchanged tree operations racing with the scheduling loop
+   leave queue ledgers and node allocation lists in disagreement with the live applications in a few percent of the
+   runs (drift); in FULL workloads (application / node removal, reload, timers, queue cleaning, gang scheduling,
+   resource updates of existing allocations) node ledgers and application books are hit as well, so every
+   disagreement there is classified 1451.
+   CALM workloads (none of these operations) are judged strictly on 1402 node ledgers (unbound orphans taken off the
+   books), 1411 application books, 1414 application allocation with a node id missing on that node. *)
+Definition final_state_check (calm : bool) (s : ostate) : list N :=
+  let strict :=
+    (if nodes_ledger_ok (strip_state s) then [] else [1402]) ++
+    (if forallb app_books_ok (s_apps s) then [] else [1411]) ++
+    (if forallb (fun a => forallb (fun x => app_unbound s x || app_alloc_on_node s x) (ap_allocs a)) (s_apps s) then [] else [1414]) in
   (if has_unbound s then [1450] else []) ++
-  (if nodes_ledger_ok (strip_state s) then [] else [1402]) ++
-  (if forallb app_books_ok (s_apps s) then [] else [1411]) ++
-  (if forallb (fun a => forallb (fun x => app_unbound s x || app_alloc_on_node s x) (ap_allocs a)) (s_apps s) then [] else [1414]) ++
-  (if drift s then [1451] else []).
+  (if calm then strict ++ (if drift s then [1451] else [])
+   else match strict with [] => (if drift s then [1451] else []) | _ => [1451] end).
 
 Definition cycle_report_ok (c : conc_case) : bool :=
   match cc_gocycle c with
@@ -106,7 +110,7 @@ Definition cycle_report_ok (c : conc_case) : bool :=
 Definition conc_check_case (c : conc_case) : list N :=
   (if lock_order_ok c then [] else [1401]) ++
   (if cycle_report_ok c then [] else [1490]) ++
-  (if cc_observed c then final_state_check (cc_final c) else []) ++
+  (if cc_observed c then final_state_check (cc_calm c) (cc_final c) else []) ++
   (if 0 <? cc_blocked c then [1403] else []) ++
   (if 0 <? cc_godeadlock c then [1404] else []) ++
   (if 0 <? cc_panics c then [1405] else []) ++
